@@ -1226,6 +1226,15 @@ func (x *Exec) classTermSort(st *State, class, sort string) Term {
 	x.decls.add(name, fmt.Sprintf("(declare-const %s %s)", name, sort))
 	t := Term{name, sort}
 	st.heap[class] = t
+	if ep == 0 && sort == sInt && strings.HasPrefix(class, "global:") && len(st.epochs) == 0 && x.globalIsRef(class) {
+		// what a package-level pointer/map variable held at entry was allocated before the call
+		ea := st.alloc
+		if x.entry != nil {
+			ea = x.entry.alloc
+		}
+		x.decls.add(name+":bound", fmt.Sprintf("(assert (and (<= 0 %s) (< %s %s)))", name, name, ea.S))
+		x.boundOf[name] = 1
+	}
 	if epRec != nil && len(epRec.locals) > 0 && strings.HasPrefix(sort, "(Array Int ") && !strings.HasPrefix(class, "global:") {
 		// a callee cannot reach objects this activation allocated and never let escape
 		prev := x.classTermSort(epRec.pre, class, sort)
@@ -1685,4 +1694,26 @@ func (x *Exec) refineTypeAssert(fr *Frame, st *State, cond ssa.Value) {
 	if sc, ok := plain.(Sc); ok {
 		x.assumeValid(st, sc)
 	}
+}
+
+// globalIsRef: the package-level variable behind a "global:pkg.Name" class has pointer, map, func or chan type.
+func (x *Exec) globalIsRef(class string) bool {
+	q := strings.TrimPrefix(class, "global:")
+	i := strings.Index(q, ".")
+	if i < 0 {
+		return false
+	}
+	tp := x.prog.typesPkg(q[:i])
+	if tp == nil {
+		return false
+	}
+	v, ok := tp.Scope().Lookup(q[i+1:]).(*types.Var)
+	if !ok {
+		return false
+	}
+	switch v.Type().Underlying().(type) {
+	case *types.Pointer, *types.Map, *types.Signature, *types.Chan:
+		return true
+	}
+	return false
 }
